@@ -70,7 +70,11 @@ func c10shared(c *h.Ctx, idx int, r *h.Rand) {
 	for _, k := range sortedKeys(lower[1]) {
 		args = append(args, "--set", k+"="+lower[1][k])
 	}
-	args = append(args, "-o", "raw", "p")
+	if idx%2 == 1 {
+		args = append(args, "-o", "raw", "run", "pipeline", "p")
+	} else {
+		args = append(args, "-o", "raw", "p")
+	}
 	res := tc{Dir: real}.run(c, args...)
 	c.Eval(1)
 	got := lines(h.ReadFile(trace))
